@@ -269,7 +269,10 @@ def gen(rng, tier):
         sc["jitter"] = rng.choice([0, 0, 2, 5, 20])
         # the kmsg descriptor may interrupt or shorten a write(2)
         if "kmsg" in _kinds(sc) and rng.random() < 0.5:
-            sc["kmsg_io"] = rng.choice(["eintr", "short"])
+            # a short write splits a record into two write(2) calls: with two threads writing records at the same time the
+            # halves can interleave on any descriptor, which no writer can prevent - only with a single kmsg-writing thread
+            nkm = sum(1 for p in sc["producers"] if any(o["k"] == "kmsg" for o in p))
+            sc["kmsg_io"] = rng.choice(["eintr", "short"]) if nkm == 1 else "eintr"
         yield sc
 
 
